@@ -46,6 +46,12 @@
 #include "scpi/constants.h"
 #include "scpi/utils.h"
 
+#ifdef SCPI_PARSER_VERIF
+/* hooks implemented by the verification harness */
+extern void scpi_verif_parse_hook(scpi_t * context, const char * data, int len);
+extern void scpi_verif_input_hook(scpi_t * context, int stored);
+#endif
+
 /**
  * Write data to SCPI output
  * @param context
@@ -206,6 +212,11 @@ scpi_bool_t SCPI_Parse(scpi_t * context, char * data, int len) {
     context->output_count = 0;
     context->first_output = TRUE;
 
+#ifdef SCPI_PARSER_VERIF
+    /* verification hook: report the message handed to the line parser */
+    scpi_verif_parse_hook(context, data, len);
+#endif
+
     while (1) {
         r = scpiParser_detectProgramMessageUnit(state, data, len);
 
@@ -322,6 +333,11 @@ scpi_bool_t SCPI_Input(scpi_t * context, const char * data, int len) {
     size_t totcmdlen = 0;
     int cmdlen = 0;
 
+#ifdef SCPI_PARSER_VERIF
+    /* verification hook: the whole input buffer becomes accessible while new data is stored */
+    scpi_verif_input_hook(context, 0);
+#endif
+
     if (len == 0) {
         context->buffer.data[context->buffer.position] = 0;
         result = SCPI_Parse(context, context->buffer.data, context->buffer.position);
@@ -341,6 +357,10 @@ scpi_bool_t SCPI_Input(scpi_t * context, const char * data, int len) {
         context->buffer.position += len;
         context->buffer.data[context->buffer.position] = 0;
 
+#ifdef SCPI_PARSER_VERIF
+        /* verification hook: bytes beyond the terminating NUL are stale, reading them is an error */
+        scpi_verif_input_hook(context, 1);
+#endif
 
         while (1) {
             cmdlen = scpiParser_detectProgramMessageUnit(&context->parser_state, context->buffer.data + totcmdlen, context->buffer.position - totcmdlen);
